@@ -28,7 +28,15 @@ type Log struct {
 func (l *Log) Addf(format string, a ...interface{}) {
 	s := fmt.Sprintf(format, a...)
 	if l.sb != "" {
+		// the sandbox path depends on the process id: keep it (and fragments of
+		// it that survive path normalisation) out of the log
 		s = strings.ReplaceAll(s, l.sb, "$SB")
+		s = strings.ReplaceAll(s, strings.TrimPrefix(l.sb, "/"), "$SB")
+		for i, c := range strings.Split(l.sb, "/") {
+			if len(c) > 3 && c != "Zq7RootZq7" {
+				s = strings.ReplaceAll(s, c, fmt.Sprintf("$P%d", i))
+			}
+		}
 	}
 	l.Lines = append(l.Lines, fmt.Sprintf("t=+%d %s", time.Since(epoch).Nanoseconds(), s))
 }
@@ -75,6 +83,7 @@ var errnoNames = func() []string {
 type SeamCall struct {
 	Fn, Op, Path, Path2 string
 	Writable            bool
+	N                   int    // bytes really read/written
 	Injected            string // errno name when a fault was injected here
 	Err                 string
 }
@@ -177,8 +186,11 @@ func (d *DiskSeam) Before(c *simos.Call) *simos.Inject {
 }
 
 func (d *DiskSeam) After(c *simos.Call, err error) {
-	if n := len(d.Calls); n > 0 && err != nil {
-		d.Calls[n-1].Err = err.Error()
+	if n := len(d.Calls); n > 0 {
+		d.Calls[n-1].N = c.N
+		if err != nil {
+			d.Calls[n-1].Err = err.Error()
+		}
 	}
 	if d.Log != nil {
 		es := "ok"
@@ -283,12 +295,13 @@ type World struct {
 	outside string
 }
 
-var worldCounter int
 
 // NewWorld creates sandbox/{canary, sibling/, <root>-evil/, <root>/} under base.
 func NewWorld(base, rootName string) (*World, error) {
-	worldCounter++
-	sb := realfp.Join(base, fmt.Sprintf("w%d", worldCounter))
+	// one fixed directory per worker process: runs are sequential, and a
+	// re-execution of a plan sees exactly the same paths
+	sb := realfp.Join(base, "wrld")
+	realos.RemoveAll(sb)
 	if err := realos.MkdirAll(sb, 0o755); err != nil {
 		return nil, err
 	}
